@@ -365,6 +365,11 @@ def check(ctx: Ctx):
             for nm_ in names_:
                 _nonetest.check(ctx, ctx.model.func(q_), nm_, f"the optional argument `{nm_}` (a list or an array)")
     # not armed: `if droplets:` in DropletTrack.__init__ — the argument is documented as a list of droplets and the test only skips an empty loop
+    # the time course keeps its own *list* of times: storing the caller's sequence (an array has no append, a shared list grows with
+    # the other owner) makes a later append() raise or leaves times and frames unequal
+    from ..rules import collections as _col_r12, support as _sup_r12
+
+    _sup_r12.compose(ctx, _col_r12.check_fresh_derivations, keep=("FRESH",), site_filter=lambda s: "EmulsionTimeCourse.__init__" in s)
     ctx.expect("NONETEST", 3)
     ctx.expect("UNBOUND", 1)
     from ..rules import purity as _pur
